@@ -11,10 +11,15 @@ import (
 // Term is an already-rendered Gallina term.
 type Term string
 
-func N(v uint64) Term   { return Term(strconv.FormatUint(v, 10) + "%N") }
-func Nat(v int) Term    { return Term(strconv.Itoa(v) + "%nat") }
-func Z(v int64) Term    { return Term("(" + strconv.FormatInt(v, 10) + ")%Z") }
-func Bool(b bool) Term  { if b { return "true" }; return "false" }
+func N(v uint64) Term { return Term(strconv.FormatUint(v, 10) + "%N") }
+func Nat(v int) Term  { return Term(strconv.Itoa(v) + "%nat") }
+func Z(v int64) Term  { return Term("(" + strconv.FormatInt(v, 10) + ")%Z") }
+func Bool(b bool) Term {
+	if b {
+		return "true"
+	}
+	return "false"
+}
 func Raw(s string) Term { return Term(s) }
 
 func List(ts []Term) Term {
